@@ -235,4 +235,6 @@ pub fn generate(s: &mut Session, tier: &str, rng: &mut Rng) {
         }
         vm_cases(s, &mut cr, rng);
     }
+    // "... also when copies arrive concurrently": the same handshake presented by several threads at once
+    crate::c09::race_cases(s, tier, rng);
 }
